@@ -109,4 +109,27 @@ func init() {
 		RequiredProbes: []string{"fault:restart", "probe:array-input-with-10+-connections", "probe:shipped-graph-start", "artifact:compared-equal", "op:array-remove"},
 		TimeUnit:       "edit operations",
 	})
+
+	register(PropCfg{
+		ID:    "C01",
+		Level: "exploration",
+		Rule: "one evaluation = one re-read of one live mesh value after one operation. (branching-histories) a pool of up to 8 live meshes; 4-40 operations drawn by reflection over the 71 exported Mesh methods, 27 meshops/gausops transformers, repeat.Mesh and seven writers onto a simulated disk that fails at a seeded offset, applied to receivers biased towards shared bases and results of Append; after every operation every live value is compared bit for bit with the snapshot taken when it was obtained. " +
+			"(shared-across-goroutines) 2-3 tasks derive from the same shared meshes under the seeded scheduler and the race detector. distinct_nontrivial = distinct histories in which some mesh had at least two derivations and earlier values were re-read afterwards (sequential), resp. distinct (history, schedule) pairs with at least one context switch between derivers (concurrent)",
+		Scenarios: []ScenCfg{
+			{Name: "branching-histories", Chunk: 400, QuickRuns: 24000, QuickS: 40, ThoroughRuns: 20000000, ThoroughS: 700, Procs: 2, DetQuick: 100, DetThorough: 1000},
+			{Name: "shared-across-goroutines", Race: true, Chunk: 50, QuickRuns: 3200, QuickS: 40, ThoroughRuns: 2000000, ThoroughS: 500, Procs: 4, DetQuick: 24, DetThorough: 120},
+		},
+		Assumptions: []string{
+			"the harness never writes to a slice or map it handed to or received from the library, so a changed snapshot is the library's doing",
+			"operations that panic or return an error on unmet preconditions are tolerated; they must still leave every live value intact",
+			"AttributeLength() is compared only for meshes whose attributes all have the same length (on ill-formed meshes it follows Go map order)",
+			"methods or transformer fields whose parameter types the generator cannot build are reported under other_counts as uncovered-type:*",
+		},
+		RealVsStub: map[string]string{
+			"real": "modeling.Mesh (all exported methods), meshops/gausops transformers, repeat.Mesh, primitives, ply/obj/stl/gltf/splat writers",
+			"stub": "simio.Disk (failing writer), pure callbacks, detsched (concurrent mode)",
+		},
+		RequiredProbes: []string{"probe:branching-derivations", "fault:disk-write-failed", "op:mesh-append", "op:meshops", "op:writer"},
+		TimeUnit:       "mesh operations (sequential) / scheduler steps (concurrent)",
+	})
 }
